@@ -55,6 +55,10 @@ extern "C" fn handler(sig: libc::c_int) {
 /// Open the dump file and install the handlers.  SIGSEGV is left to the Rust runtime (its stack
 /// overflow handler ends in `abort()`, which arrives here as SIGABRT).
 pub fn arm(path: &str) {
+    if cfg!(miri) {
+        // the interpreter has no signal delivery; an abort inside it is reported by the interpreter itself
+        return;
+    }
     let Ok(c) = std::ffi::CString::new(path) else { return };
     let fd = unsafe { libc::open(c.as_ptr(), libc::O_CREAT | libc::O_WRONLY | libc::O_TRUNC, 0o644) };
     if fd < 0 {
